@@ -50,7 +50,7 @@ def _rezone(x, minutes: int):
     return K.map_datetimes(x, fn)
 
 
-PROFILE = Profile("python_canonical+oversize", oversize_legacy=True, long_arrays=True)
+PROFILE = Profile("python_canonical+oversize", oversize_legacy=True, long_arrays=True, huge_bytes=True)
 
 
 def check(cd, tree, extra):
